@@ -1036,6 +1036,31 @@ func (s *Server) handleDecline(req *dhcpv4.DHCPv4) {
 		if pool := s.poolMgr.GetPool(lease.PoolID); pool != nil {
 			pool.MarkUnavailable(declinedIP)
 		}
+
+		// The fast path must stop answering for the declined lease
+		s.removeFromFastPath(mac, lease)
+	}
+}
+
+// removeFromFastPath deletes every eBPF cache entry (by MAC, VLAN pair and
+// circuit-ID) through which the fast path could still answer for a lease that
+// has ended.
+func (s *Server) removeFromFastPath(mac net.HardwareAddr, lease *Lease) {
+	if s.loader == nil {
+		return
+	}
+
+	s.loader.RemoveSubscriber(ebpf.MACToUint64(mac))
+
+	if (lease.STag > 0 || lease.CTag > 0) && s.loader.HasVLANSupport() {
+		s.loader.RemoveVLANSubscriber(lease.STag, lease.CTag)
+	}
+
+	if len(lease.CircuitID) > 0 {
+		s.loader.RemoveCircuitIDMapping(lease.CircuitID)
+		if s.loader.HasCircuitIDSubscriberSupport() {
+			s.loader.RemoveCircuitIDSubscriber(lease.CircuitID)
+		}
 	}
 }
 
@@ -1178,13 +1203,9 @@ func (s *Server) cleanupExpiredLeases() {
 			pool.Release(lease.IP)
 		}
 
-		// Remove from fast path cache
-		if s.loader != nil {
-			hwAddr, _ := net.ParseMAC(mac)
-			if hwAddr != nil {
-				macU64 := ebpf.MACToUint64(hwAddr)
-				s.loader.RemoveSubscriber(macU64)
-			}
+		// Remove from fast path cache (MAC, VLAN and circuit-ID entries)
+		if hwAddr, _ := net.ParseMAC(mac); hwAddr != nil {
+			s.removeFromFastPath(hwAddr, lease)
 		}
 	}
 	s.leasesMu.Unlock()
